@@ -369,3 +369,6 @@ def replay(doc):
     if bad:
         return True, f"reproduced: {bad[0]}: {bad[1]}"
     return False, "case agrees with the reference"
+
+
+RULE += ' Also (wave 9): non-canonical numerals (IIII, VIIII, IM ...) parsed before the canonical numeral of their value was produced; one-shot BatcherIter inputs consumed in two rounds.'
